@@ -8,7 +8,7 @@ ALL = ["C%02d" % i for i in range(1, 21)]
 
 CLAIMED = {
     "C11": dict(
-        text="PARTIAL. Coq theorems: a teardown invariant (held qubits of a node = |qubitList|, handles live) holds over every application history; StopApp completes and answers Done on error-free applications and leaves no held qubit of the application, for any number of application generations (`C11_stop_restores`); halves handed to the peer survive the creator's stop; `_refuted` witness for a pair creation that fails after its two temporaries exist (known finding). Only the held-qubit count is PROVED to return to baseline; the simulated-qubit and register counts are covered by the count oracle and the dump correspondence (test, not proof). Tie: applications with allocations, frees, pair halves and deliberately failing subroutines at capacities 1..3 over >= 3 generations through the real handler.",
+        text="Coq theorems: a teardown invariant (held qubits of a node = |qubitList|, handles live) holds over every application history; StopApp completes and answers Done on error-free applications and leaves no held qubit of the application, for any number of application generations (`C11_stop_restores`); the network a host drives is a reachable Model-V state and, once every application is stopped, NO node holds a qubit, simulates a qubit or keeps a register (`C11_stop_leaves_nothing`, via 'registers are never empty at a quiescent point'); halves handed to the peer survive the creator's stop; `_refuted` witness for a pair creation that fails after its two temporaries exist (known finding). The closed-world theorems cover one host without entanglement generation; applications with pair halves are covered by the count oracle and the dump correspondence. Tie: applications with allocations, frees, pair halves and deliberately failing subroutines at capacities 1..3 over >= 3 generations through the real handler.",
         design="9.5/C11 (notes/C11.md)",
         note="Trusted: as C09. Known findings: C11:epr-temporaries (D16 ii), C11:appid-reuse (application id cannot be reused after StopApp; root cause in netqasm's SharedMemoryManager).",
         technique="Coq proof (teardown invariant over application histories, refutation witness) + vm_compute correspondence + count oracle"),
